@@ -73,7 +73,7 @@ func init() {
 		Gen: func(tier string, emit func(interface{})) {
 			genMerges("vec", vecBounds(tier), func(c enum.MergeCase) { emit(c) })
 			genVecBigMerges(tier, func(c enum.MergeCase) { emit(c) })
-			genAlphabetMerges("vecA", 9, tier, func(c enum.MergeCase) { emit(c) })
+			genAlphabetMerges("vecA", []int{0, 1, 2, 3, 4, 5, 6, 7, 8}, tier, func(c enum.MergeCase) { emit(c) })
 		},
 		Run: func(ci interface{}, a *run.Acc) {
 			runMerge("C15")(ci, a)
